@@ -402,6 +402,7 @@ type reqEvent struct {
 	Out      string     `json:"out"`
 	Outlen   int        `json:"outlen"`
 	Ferr     bool       `json:"ferr"`
+	Fnoexec  bool       `json:"fnoexec"` // the Flush error was ErrFlushNoExec
 	Fpanic   string     `json:"fpanic"`
 	Fext     []extEntry `json:"fext"`
 	Post2    viseSnap   `json:"post2"` // after Flush
@@ -614,6 +615,7 @@ func (h *engineHost) request(input string) *reqEvent {
 			w := bytes.NewBuffer(nil)
 			_, err := en.Flush(ctx, w)
 			ev.Ferr = err != nil
+			ev.Fnoexec = err == engine.ErrFlushNoExec
 			ev.Out = enc(w.String())
 			ev.Outlen = w.Len()
 			first := w.String()
